@@ -39,7 +39,8 @@ When you are done, leave the source change applied (uncommitted) in the worktree
  1. the list of changed source files and the demo file path,
  2. the exact command that runs the demo,
  3. what specific condition is needed for the breakage to manifest (inputs / sequence / boundary), and why ordinary use does not hit it,
- 4. confirmation that the existing suite passes with the change, that the demo fails with it and passes without it.
+ 4. confirmation that the existing suite passes with the change, that the demo fails with it and passes without it,
+ 5. (optional, valuable) anything you noticed while working where the UNCHANGED code already behaves contrary to the property text - give the minimal program / input and what happens. Do not go hunting for long; just report what you came across.
 """
 av = ""
 if avoid:
